@@ -138,14 +138,21 @@ class CounterMonitor(Monitor):
 
 
 # ------------------------------------------------------------------ ToggleSignal (reference = upstream ToggleMock)
-def toggle_design(first, second, default_state, first_state):
+CALLBACK_PORTS = ["    cb_r = Port.output(Bit, default=False)", "    cb_f = Port.output(Bit, default=False)"]
+CALLBACK_DEFS = ["        def on_rising():", "            self.cb_r ^= True", "        def on_falling():", "            self.cb_f ^= True"]
+
+
+def toggle_design(first, second, default_state, first_state, callbacks=False):
     args = [str(first)] + ([str(second)] if second is not None else [])
     if default_state:
         args.append("default_state=True")
     if first_state:
         args.append("first_state=True")
+    if callbacks:
+        args += ["on_rising=on_rising", "on_falling=on_falling"]
     lines = [HEADER, "class W(cohdl.Entity):", "    clk = Port.input(Bit)", "    rst_toggle = Port.input(Bit)",
-             "    state = Port.output(Bit)", "    rising = Port.output(Bit)", "    falling = Port.output(Bit)", "    def architecture(self):",
+             "    state = Port.output(Bit)", "    rising = Port.output(Bit)", "    falling = Port.output(Bit)"] + (CALLBACK_PORTS if callbacks else []) + ["    def architecture(self):"] + \
+            (CALLBACK_DEFS if callbacks else []) + [
              "        ctx = std.SequentialContext(std.Clock(self.clk))",
              f"        t = std.ToggleSignal(ctx, {', '.join(args)})",
              "        std.concurrent_assign(t.get_reset_signal(), self.rst_toggle)",
@@ -154,8 +161,9 @@ def toggle_design(first, second, default_state, first_state):
 
 
 class ToggleMonitor(Monitor):
-    def __init__(self, first, second, default_state, first_state):
+    def __init__(self, first, second, default_state, first_state, callbacks=False):
         super().__init__()
+        self.callbacks = callbacks
         self.first, self.second = first, (first if second is None else second)
         self.default, self.first_state = int(default_state), int(first_state)
         self.cnt = 0  # power-up == state after reset
@@ -176,6 +184,71 @@ class ToggleMonitor(Monitor):
         self.check(D.v_eq(outs["state"], self.state, 1), "toggle state differs from configured durations")
         self.check(D.b_eq(bit(outs["rising"]), rising), "rising pulse wrong")
         self.check(D.b_eq(bit(outs["falling"]), falling), "falling pulse wrong")
+        if self.callbacks:
+            # the callbacks run in the step that computes the edge: their pushed pulses coincide with rising() / falling()
+            self.check(D.b_eq(bit(outs["cb_r"]), rising), "on_rising callback not executed exactly with the 0->1 transition")
+            self.check(D.b_eq(bit(outs["cb_f"]), falling), "on_falling callback not executed exactly with the 1->0 transition")
+
+
+# ------------------------------------------------------------------ ClockDivider with integer ratios (reference = upstream MockClkDivider)
+def clkdiv_design(ratio, default_state, tick_at_start, callbacks, runtime=False):
+    args = ["self.r" if runtime else str(ratio)]
+    if default_state:
+        args.append("default_state=True")
+    if tick_at_start:
+        args.append("tick_at_start=True")
+    if callbacks:
+        args += ["on_rising=on_rising", "on_falling=on_falling"]
+    lines = [HEADER, "class W(cohdl.Entity):", "    clk = Port.input(Bit)", "    rst_div = Port.input(Bit)", "    r = Port.input(Unsigned[3])",
+             "    state = Port.output(Bit)", "    rising = Port.output(Bit)", "    falling = Port.output(Bit)"] + (CALLBACK_PORTS if callbacks else []) + ["    def architecture(self):"] + \
+            (CALLBACK_DEFS if callbacks else []) + [
+             "        ctx = std.SequentialContext(std.Clock(self.clk))",
+             f"        t = std.ClockDivider(ctx, {', '.join(args)})",
+             "        std.concurrent_assign(t.get_reset_signal(), self.rst_div)",
+             "        @std.concurrent", "        def logic():", "            self.state <<= t.state()", "            self.rising <<= t.rising()", "            self.falling <<= t.falling()"]
+    return "\n".join(lines) + "\n"
+
+
+class ClkDivMonitor(Monitor):
+    """state() differs from default_state for exactly one step per `ratio` steps; the first such step is the first one after
+    power-up / reset when tick_at_start, the ratio-th otherwise; rising/falling flag the transitions; callbacks coincide with them.
+    Run-time ratio: held constant over the run, >= 2 (assumed)."""
+
+    def __init__(self, ratio, default_state, tick_at_start, callbacks, runtime=False):
+        super().__init__()
+        self.ratio, self.default, self.tick, self.callbacks, self.runtime = ratio, int(default_state), tick_at_start, callbacks, runtime
+        self.pos = None
+        self.state = self.default
+        self.r0 = None
+
+    def step(self, i, ins, outs):
+        W = 4
+        if self.runtime:
+            r = D.v_zext(ins["r"], 3, W)
+            if self.r0 is None:
+                self.r0 = r
+                self.assume(D.v_ule(2, r, W))
+            self.assume(D.v_eq(r, self.r0, W))
+            ratio = self.r0
+        else:
+            ratio = self.ratio
+        if self.pos is None:
+            self.pos = D.v_sub(ratio, 1, W) if self.tick else 0
+        rst = bit(ins["rst_div"])
+        prev = self.state
+        nxt = mux(D.v_eq(D.v_add(self.pos, 1, W), ratio, W), 0, D.v_add(self.pos, 1, W), W)
+        st2 = mux(D.v_eq(nxt, 0, W), 1 - self.default, self.default, 1)
+        start = D.v_sub(ratio, 1, W) if self.tick else 0
+        self.pos = mux(rst, start, nxt, W)
+        self.state = mux(rst, self.default, st2, 1)
+        rising = D.b_and(D.b_not(rst), D.b_and(D.v_eq(prev, 0, 1), D.v_eq(st2, 1, 1)))
+        falling = D.b_and(D.b_not(rst), D.b_and(D.v_eq(prev, 1, 1), D.v_eq(st2, 0, 1)))
+        self.check(D.v_eq(outs["state"], self.state, 1), "divider state is not one step per period")
+        self.check(D.b_eq(bit(outs["rising"]), rising), "rising pulse wrong")
+        self.check(D.b_eq(bit(outs["falling"]), falling), "falling pulse wrong")
+        if self.callbacks:
+            self.check(D.b_eq(bit(outs["cb_r"]), rising), "on_rising callback not executed exactly with the 0->1 transition")
+            self.check(D.b_eq(bit(outs["cb_f"]), falling), "on_falling callback not executed exactly with the 1->0 transition")
 
 
 def toggle_rt_design(first_state):
@@ -284,6 +357,16 @@ def jobs(tier):
         tot = f + (f if s is None else s)
         js.append((f"ToggleSignal|{f}|{s}|default={ds}|first={fs}", toggle_design(f, s, ds, fs), {"rst_toggle": 1}, ["state", "rising", "falling"], 2 * tot + 5,
                    lambda f=f, s=s, ds=ds, fs=fs: ToggleMonitor(f, s, ds, fs)))
+    for (f, s2), ds, fs in (((2, 1), False, False), ((1, 2), True, False), ((3, 3), False, True), ((1, 1), False, False)):
+        js.append((f"ToggleSignal|callbacks|{f}|{s2}|default={ds}|first={fs}", toggle_design(f, s2, ds, fs, True), {"rst_toggle": 1}, ["state", "rising", "falling", "cb_r", "cb_f"], 2 * (f + s2) + 5,
+                   lambda f=f, s2=s2, ds=ds, fs=fs: ToggleMonitor(f, s2, ds, fs, True)))
+    for ratio, ds, tick in itertools.product((2, 3, 5) if tier == "quick" else (2, 3, 4, 5, 7, 8), (False, True), (False, True)):
+        cb = (ratio, ds, tick) in ((3, False, False), (2, False, True), (5, True, False), (3, True, True))
+        js.append((f"ClockDivider|{ratio}|default={ds}|tick_at_start={tick}" + ("|callbacks" if cb else ""), clkdiv_design(ratio, ds, tick, cb), {"rst_div": 1, "r": 3},
+                   ["state", "rising", "falling"] + (["cb_r", "cb_f"] if cb else []), 2 * ratio + 5, lambda ratio=ratio, ds=ds, tick=tick, cb=cb: ClkDivMonitor(ratio, ds, tick, cb)))
+    for ds in (False, True):
+        js.append((f"ClockDivider|runtime ratio|default={ds}", clkdiv_design(None, ds, False, False, True), {"rst_div": 1, "r": 3}, ["state", "rising", "falling"], 14 if tier == "quick" else 22,
+                   lambda ds=ds: ClkDivMonitor(None, ds, False, False, True)))
     for fs in (False, True):
         js.append((f"ToggleSignal|runtime durations|first={fs}", toggle_rt_design(fs), {"rst_toggle": 1, "a": 3, "b": 3}, ["state", "rising", "falling"], 20 if tier == "quick" else 32,
                    lambda fs=fs: ToggleRtMonitor(fs)))
@@ -327,10 +410,10 @@ def run(tier: str) -> int:
                 rep.stats.extra["traces_validated"] += 1
             else:
                 rep.inconclusive_query(f"{key}: {status} {info}")
-        rep.stats.units |= {"cohdl.std.utility.wait_for / Waiter.wait_for / tick", "DelayLine / delayed", "continuous_counter", "ToggleSignal", "debounce"}
+        rep.stats.units |= {"cohdl.std.utility.wait_for / Waiter.wait_for / tick", "DelayLine / delayed", "continuous_counter", "ToggleSignal (incl. on_rising / on_falling callbacks)", "ClockDivider", "debounce"}
         rep.assumptions += ["BMC from power-up, depth K >= 2*period+4 per design; inputs (start, reset, enable, data, run-time duration) symbolic at every clock",
                             "run-time duration >= 1 unless allow_zero (documented precondition)",
-                            "Duration (float) arguments and ClockDivider are not covered (Duration.count_periods is floating point)",
+                            "Duration (float) arguments are not covered (Duration.count_periods is floating point); ClockDivider with constant integer ratios only (reference = upstream MockClkDivider), require_enable=False",
                             "ToggleSignal reference = upstream ToggleMock (ghdl-validated test bench), first sample after power-up skipped"]
         return rep.finish({
             "states": states, "transitions": transitions, "traces_validated_against_impl": rep.stats.extra.get("traces_validated", 0),
